@@ -558,6 +558,13 @@ theorem pin_bloom_limits :
 
 /-! ### pinning of regenerated facts (T2) -/
 
+/-- wire constants of the merkleblock message -/
+theorem pin_merkleblock_wire :
+    Generated.C20.merkleBlockCommand = "merkleblock" ∧ Generated.C20.merkleBlockMaxPayload = 4000000 ∧
+    Generated.C20.bip0037Version = (PmtWire.BIP0037_VERSION : Int) ∧
+    Generated.C20.maxBlockPayload / 10 + 1 = (PmtWire.MAX_TX_PER_BLOCK : Int) ∧
+    (Generated.C20.maxBlockPayload / 10 + 1) / 8 = (PmtWire.MAX_FLAGS : Int) := by decide
+
 theorem pin_basic_params :
     Generated.C20.defaultP = (BASIC_P : Int) ∧ Generated.C20.defaultM = (BASIC_M : Int) ∧
     Generated.C20.keySize = (KEY_SIZE : Int) ∧ Generated.C20.opReturn = (OP_RETURN.toNat : Int) ∧
